@@ -24,7 +24,7 @@ def StlDiscreteTimeSpecification(semantics=Semantics.STANDARD, language=Language
     if semantics == Semantics.STANDARD and language == Language.PYTHON:
         spec = AbstractOfflineOnlineSpecification(StlAst(), StlDiscreteTimeOfflineInterpreter(),
                                                   StlDiscreteTimeOnlineInterpreter(),
-                                                  pastifier=StlPastifier())
+                                                  pastifier=StlPastifier(), explainer=STLExplainer())
     elif semantics == Semantics.OUTPUT_ROBUSTNESS and language == Language.PYTHON:
         spec = AbstractOfflineOnlineSpecification(StlAst(), IAStlOutputRobustnessDiscreteTimeOfflineInterpreter(),
                                                   IAStlOutputRobustnessDiscreteTimeOnlineInterpreter(),
